@@ -502,6 +502,179 @@ theorem payload_one_leaf (d : Gen.D) (f : Nat) (s s' : List Char) (m : Nat) (ts 
   have hqel : @QEL S ts ts' := @qel_of_subL S s s' m hQ hdot ts ts' hsub hng (fun w hw => (hP w).2 (by simp [hw]))
   exact ⟨S, hP, hqel, @payload_shape_invariant S d f ts ts' hqel⟩
 
+/-! ## the relation in concrete terms: ANY number of replaced regions -/
+
+/-- the text of a quoted region: it begins with a quote character `'` `"` `` ` `` and ends with the same character -/
+def quotedSrc (s : List Char) : Bool :=
+  match s with
+  | c :: r => (c == '\'' || c == '"' || c == '`') && r.getLast? == some c
+  | [] => false
+theorem quotedSrc_opaque {s : List Char} (h : quotedSrc s = true) : opaqueHead s = true := by
+  cases s with
+  | nil => simp [quotedSrc] at h
+  | cons c r =>
+    simp only [quotedSrc, Bool.and_eq_true, Bool.or_eq_true, beq_iff_eq] at h
+    simp only [opaqueHead, Bool.or_eq_true, beq_iff_eq]
+    rcases h.1 with (h | h) | h <;> simp [h]
+
+mutual
+/-- **"the same quoted region, other payload"**, spelled out: equal; or two leaves with the same marks that are both quoted regions of the
+same quote kind, both / neither ASCII, with not exactly one dot if they carry the NAME mark, whose names (back-quotes stripped) are none of
+the function names the parser dispatches on; or two bracket groups (without the NAME mark if they differ) with related children -/
+def SameQuoted : Tok → Tok → Prop
+  | .single s m, .single s' m' => m = m' ∧ (s = s' ∨
+      (quotedSrc s = true ∧ quotedSrc s' = true ∧ s.head? = s'.head? ∧ s.any p128 = s'.any p128 ∧
+       (m &&& NAME = 0 ∨ (dotOK s = true ∧ dotOK s' = true)) ∧
+       inertB (unifyName (String.ofList s)) = true ∧ inertB (unifyName (String.ofList s')) = true))
+  | .group k cs m, .group k' cs' m' => k = k' ∧ m = m' ∧ SameQuotedL cs cs' ∧ (cs = cs' ∨ m &&& NAME = 0)
+  | .single _ _, .group _ _ _ => False
+  | .group _ _ _, .single _ _ => False
+def SameQuotedL : List Tok → List Tok → Prop
+  | [], [] => True
+  | t :: ts, t' :: ts' => SameQuoted t t' ∧ SameQuotedL ts ts'
+  | [], _ :: _ => False
+  | _ :: _, [] => False
+end
+mutual
+/-- the payload texts of two related token trees: for every pair of different leaves the two texts, with and without back-quotes; for every
+pair of different groups the two renderings -/
+def payTexts : Tok → Tok → List String
+  | .single s _, .single s' _ => if s == s' then [] else leafTexts s s'
+  | .group k cs m, .group k' cs' m' =>
+    if eqbL cs cs' then [] else Tok.src (.group k cs m) :: Tok.src (.group k' cs' m') :: payTextsL cs cs'
+  | _, _ => []
+def payTextsL : List Tok → List Tok → List String
+  | t :: ts, t' :: ts' => payTexts t t' ++ payTextsL ts ts'
+  | _, _ => []
+end
+
+mutual
+theorem sameQuoted_any : ∀ t t' : Tok, SameQuoted t t' → (Tok.source t).any p128 = (Tok.source t').any p128
+  | .single s m, .single s' m', h => by
+    simp only [SameQuoted] at h
+    rcases h.2 with rfl | h2
+    · rfl
+    · exact h2.2.2.2.1
+  | .group k cs m, .group k' cs' m', h => by
+    simp only [SameQuoted] at h
+    simp only [Tok.source, List.any_cons, List.any_append, sameQuotedL_any cs cs' h.2.2.1]
+  | .single _ _, .group _ _ _, h => by simp [SameQuoted] at h
+  | .group _ _ _, .single _ _, h => by simp [SameQuoted] at h
+theorem sameQuotedL_any : ∀ ts ts' : List Tok, SameQuotedL ts ts' → (sourceL ts).any p128 = (sourceL ts').any p128
+  | [], [], _ => rfl
+  | t :: ts, t' :: ts', h => by
+    simp only [SameQuotedL] at h
+    simp only [sourceL, List.any_append, sameQuoted_any t t' h.1, sameQuotedL_any ts ts' h.2]
+  | [], _ :: _, h => by simp [SameQuotedL] at h
+  | _ :: _, [], h => by simp [SameQuotedL] at h
+end
+
+mutual
+/-- every payload text is inert (none of the dispatched function names) -/
+theorem payTexts_inert : ∀ t t' : Tok, SameQuoted t t' → ∀ w ∈ payTexts t t', inertB w = true
+  | .single s m, .single s' m', h, w, hw => by
+    simp only [SameQuoted] at h
+    simp only [payTexts] at hw
+    split at hw
+    · simp at hw
+    · rename_i hne
+      rcases h.2 with rfl | h2
+      · simp at hne
+      · simp only [leafTexts, List.mem_cons, List.not_mem_nil, or_false] at hw
+        rcases hw with rfl | rfl | rfl | rfl
+        · exact inert_of_opq (opq_ofList (quotedSrc_opaque h2.1))
+        · exact inert_of_opq (opq_ofList (quotedSrc_opaque h2.2.1))
+        · exact h2.2.2.2.2.2.1
+        · exact h2.2.2.2.2.2.2
+  | .group k cs m, .group k' cs' m', h, w, hw => by
+    simp only [SameQuoted] at h
+    simp only [payTexts] at hw
+    split at hw
+    · simp at hw
+    · simp only [List.mem_cons] at hw
+      rcases hw with rfl | rfl | hw
+      · exact inert_of_opq (opq_ofList (by simp [Tok.source, opaqueHead]))
+      · exact inert_of_opq (opq_ofList (by simp [Tok.source, opaqueHead]))
+      · exact payTextsL_inert cs cs' h.2.2.1 w hw
+  | .single _ _, .group _ _ _, h, _, _ => by simp [SameQuoted] at h
+  | .group _ _ _, .single _ _, h, _, _ => by simp [SameQuoted] at h
+theorem payTextsL_inert : ∀ ts ts' : List Tok, SameQuotedL ts ts' → ∀ w ∈ payTextsL ts ts', inertB w = true
+  | [], [], _, w, hw => by simp [payTextsL] at hw
+  | t :: ts, t' :: ts', h, w, hw => by
+    simp only [SameQuotedL] at h
+    simp only [payTextsL, List.mem_append] at hw
+    rcases hw with hw | hw
+    · exact payTexts_inert t t' h.1 w hw
+    · exact payTextsL_inert ts ts' h.2 w hw
+  | [], _ :: _, h, _, _ => by simp [SameQuotedL] at h
+  | _ :: _, [], h, _, _ => by simp [SameQuotedL] at h
+end
+
+section concrete
+variable [S : PaySet]
+mutual
+/-- the concrete relation implies `QE` for every payload set that contains the payload texts -/
+theorem qe_of_sameQuoted : ∀ t t' : Tok, SameQuoted t t' → (∀ w ∈ payTexts t t', PaySet.P w = true) → QE t t'
+  | .single s m, .single s' m', h, hw => by
+    simp only [SameQuoted] at h
+    obtain ⟨rfl, h2⟩ := h
+    simp only [QE, true_and]
+    by_cases e : s = s'
+    · exact .inl e
+    · rcases h2 with h2 | h2
+      · exact absurd h2 e
+      · right
+        have hw2 : ∀ w ∈ leafTexts s s', PaySet.P w = true := fun w hm => hw w (by simp [payTexts, e, hm])
+        refine ⟨⟨quotedSrc_opaque h2.1, quotedSrc_opaque h2.2.1, h2.2.2.2.1, ?_, ?_, ?_, ?_⟩, h2.2.2.2.2.1⟩ <;>
+          exact hw2 _ (by simp [leafTexts])
+  | .group k cs m, .group k' cs' m', h, hw => by
+    simp only [SameQuoted] at h
+    obtain ⟨rfl, rfl, h3, h4⟩ := h
+    simp only [QE, true_and]
+    rcases h4 with rfl | hm
+    · exact ⟨QEL.refl _, .inl rfl⟩
+    by_cases e : eqbL cs cs' = true
+    · have := eqbL_sound cs cs' e; subst this
+      exact ⟨QEL.refl _, .inl rfl⟩
+    · have hw2 : ∀ w ∈ payTextsL cs cs', PaySet.P w = true := fun w hm => hw w (by simp [payTexts, e, hm])
+      refine ⟨qel_of_sameQuotedL cs cs' h3 hw2, .inr ⟨hm, ?_⟩⟩
+      have ha := sameQuotedL_any cs cs' h3
+      have p1 := hw (Tok.src (.group k cs m)) (by simp [payTexts, e])
+      have p2 := hw (Tok.src (.group k cs' m)) (by simp [payTexts, e])
+      simp only [Tok.src, Tok.source] at p1 p2
+      refine ⟨by simp [opaqueHead], by simp [opaqueHead], ?_, p1, p2, ?_, ?_⟩
+      · simp only [List.any_cons, List.any_append, ha]
+      · rw [unifyName_paren]; exact p1
+      · rw [unifyName_paren]; exact p2
+  | .single _ _, .group _ _ _, h, _ => by simp [SameQuoted] at h
+  | .group _ _ _, .single _ _, h, _ => by simp [SameQuoted] at h
+theorem qel_of_sameQuotedL : ∀ ts ts' : List Tok, SameQuotedL ts ts' → (∀ w ∈ payTextsL ts ts', PaySet.P w = true) → QEL ts ts'
+  | [], [], _, _ => by simp
+  | t :: ts, t' :: ts', h, hw => by
+    simp only [SameQuotedL] at h
+    simp only [qel_cons_cons]
+    exact ⟨qe_of_sameQuoted t t' h.1 (fun w hm => hw w (by simp [payTextsL, hm])),
+      qel_of_sameQuotedL ts ts' h.2 (fun w hm => hw w (by simp [payTextsL, hm]))⟩
+  | [], _ :: _, h, _ => by simp [SameQuotedL] at h
+  | _ :: _, [], h, _ => by simp [SameQuotedL] at h
+end
+end concrete
+
+/-- **C06.payload_shape_invariant_concrete**: two token lists that differ only inside quoted regions in the concrete sense `SameQuotedL` (any
+number of regions, string literals and back-quoted names, any nesting) and do differ (`payTextsL ≠ []`): `parse_statements` gives the same error
+kind, or statement lists equal after the erasure of exactly the payload texts `payTextsL ts ts'`; likewise every entry point. -/
+theorem payload_shape_invariant_concrete (d : Gen.D) (f : Nat) (ts ts' : List Tok) (h : SameQuotedL ts ts') (hne : payTextsL ts ts' ≠ []) :
+    ∃ S : PaySet, (∀ w, S.P w = true ↔ w ∈ payTextsL ts ts') ∧ QEL ts ts' ∧
+      QEX (qeq (List.map erSt0)) (pStatements d f ts) (pStatements d f ts') ∧
+      ∀ e ∈ PM.entriesAll, OutcomeQE (e.2 d f ts) (e.2 d f ts') := by
+  obtain ⟨w0, hw0⟩ := List.exists_mem_of_ne_nil _ hne
+  let S : PaySet := payOfList (payTextsL ts ts') w0 hw0 (payTextsL_inert ts ts' h)
+  have hP : ∀ w, S.P w = true ↔ w ∈ payTextsL ts ts' := fun w => by
+    show (payTextsL ts ts').contains w = true ↔ _
+    simp
+  have hq : @QEL S ts ts' := @qel_of_sameQuotedL S ts ts' h (fun w hw => (hP w).2 hw)
+  exact ⟨S, hP, hq, @payload_shape_invariant S d f ts ts' hq, fun e he => @entriesAll_payload_invariant S e he d f ts ts' hq⟩
+
 /-! ## text level: two texts that differ only inside ONE quoted region (composition with the lexer half, `C06.payload_substitution_lex`) -/
 
 theorem wrap_opaque (k : QK) (p : List Char) : opaqueHead (k.wrap p) = true := by
@@ -621,6 +794,18 @@ example [S : PaySet] (h1 : PaySet.P "`x`" = true) (h2 : PaySet.P "`y z`" = true)
       rcases hw with rfl | rfl
       · exact h5
       · exact h6)
+
+/-- `SELECT 'a' AS `x` FROM t` / `SELECT '); --' AS `y z` FROM t`: TWO replaced regions, a string and a back-quoted alias -/
+def P6.ts5 : List Tok := [.single "SELECT".toList 0, .single "'a'".toList 10, .single "AS".toList 2, .single "`x`".toList 2, .single "FROM".toList 0, .single ['t'] 2]
+def P6.ts6 : List Tok := [.single "SELECT".toList 0, .single "'); --'".toList 10, .single "AS".toList 2, .single "`y z`".toList 2, .single "FROM".toList 0, .single ['t'] 2]
+/-- the hypotheses of `payload_shape_invariant_concrete` hold for it (kernel-checked) -/
+example : SameQuotedL P6.ts5 P6.ts6 ∧ payTextsL P6.ts5 P6.ts6 ≠ [] := by
+  constructor
+  · unfold P6.ts5 P6.ts6; simp only [SameQuotedL, SameQuoted]
+    have q : ∀ {a b : Prop}, a → True ∧ (a ∨ b) := fun h => ⟨trivial, .inl h⟩
+    exact ⟨q trivial, ⟨trivial, .inr ⟨by decide, by decide, by decide, by decide, .inr ⟨by decide, by decide⟩, by decide, by decide⟩⟩, q trivial,
+      ⟨trivial, .inr ⟨by decide, by decide, by decide, by decide, .inr ⟨by decide, by decide⟩, by decide, by decide⟩⟩, q trivial, q trivial, trivial⟩
+  · simp [P6.ts5, P6.ts6, payTextsL, payTexts, leafTexts]
 
 /-! ### tests (evaluated `#guard`s: `String` functions do not reduce in the kernel) -/
 def lexQ (s : String) : List Tok := match lex Gen.cfgS s.toList with | .ok ts => ts | .error _ => []
